@@ -466,6 +466,21 @@ func c10Make(r *prng.R, pr *c10Params) (*c10In, string) {
 		if err != nil {
 			return nil, "signing-failed"
 		}
+		// some signed inputs come from the caller's own unlocker: <memo> OP_DROP <sig> <key>,
+		// of a length on either side of the 252/253 (and 65535/65536) length-prefix boundary
+		mr := prng.New(uint64(t.Version)<<32|uint64(t.LockTime), "C10-memo", 0)
+		for _, i := range signIdx {
+			if !mr.Chance(1, 4) {
+				continue
+			}
+			L := 138 + mr.Intn(14)
+			if mr.Chance(1, 3) {
+				L = prng.Pick(mr, []int{300, 1000, 65420, 65430, 66000})
+			}
+			u := append(gen.Push(mr.Bytes(L)), 0x75)
+			t.Ins[i].Unlock = append(u, t.Ins[i].Unlock...)
+			changed = changed || iter == 0
+		}
 		if !changed {
 			break
 		}
